@@ -16,15 +16,11 @@ Definition offset_tpl_ok (r : cls * (list string * list string) * string * strin
   let '(c, tpl, none_txt, zero_txt) := r in
   strs_eqb (offset_toks c (Some 5%Z)) (fill tpl "5") && strs_eqb (offset_toks c None) (fill tpl none_txt)
   && strs_eqb (offset_toks c (Some 0%Z)) (fill tpl zero_txt).
-Definition setop_tpl_ok (r : cls * (list string * list string) * (list string * list string)) : bool :=
-  let '(c, lt, ot) := r in
-  strs_eqb (setop_limit_toks (Some 7%Z)) (fill lt "7") && strs_eqb (setop_offset_toks (Some 5%Z)) (fill ot "5").
 Definition covers_cls {A} (f : A -> cls) (l : list A) : bool := list_eqb cls_eqb (map f l) all_cls.
 
 Lemma templates_agree :
   forallb limit_tpl_ok x_limit_tpl = true /\ covers_cls fst x_limit_tpl = true
-  /\ forallb offset_tpl_ok x_offset_tpl = true /\ covers_cls (fun r => fst (fst (fst r))) x_offset_tpl = true
-  /\ forallb setop_tpl_ok x_setop_tpl = true /\ covers_cls (fun r => fst (fst r)) x_setop_tpl = true.
+  /\ forallb offset_tpl_ok x_offset_tpl = true /\ covers_cls (fun r => fst (fst (fst r))) x_offset_tpl = true.
 Proof. vm_compute. repeat split. Qed.
 
 (* ---- structure on the complete grid ---- *)
